@@ -15,6 +15,9 @@ def SlotFit (C : Codecs) (T : String → Prop) (env : Env) : Slot → Prop
   | .bytes _ f _ => ∃ bs, env.get f = some (.b bs)
   | .arr _ f => ∃ bs, env.get f = some (.b bs)
   | .sub _ f typ _ => ∃ v bs, env.get f = some (.t v) ∧ C.enc typ v = .ok (bs, v) ∧ T typ
+  | .ints _ w _ f _ => ∃ xs, env.get f = some (.ns xs) ∧ ∀ x ∈ xs, x < 256 ^ w
+  | .subs _ f typ _ _ => ∃ vs, env.get f = some (.ts vs) ∧ T typ ∧ ∀ v ∈ vs, ∃ bs v', C.enc typ v = .ok (bs, v')
+  | .opt _ w _ f _ => ∃ x, env.get f = some (.n x) ∧ x < 256 ^ w
 
 theorem layoutBytes_nil (C : Codecs) (env : Env) : layoutBytes C env [] = [] := rfl
 theorem layoutBytes_cons (C : Codecs) (env : Env) (sl : Slot) (l : List Slot) :
